@@ -9,6 +9,7 @@ import (
 	"io"
 	"log"
 	"math/rand"
+	"net/url"
 	"reflect"
 	"runtime"
 	"strings"
@@ -175,6 +176,8 @@ var htmlPayloads = []string{
 	`&lt;` + marker + `&gt;&amp;`,
 	` ` + marker + ` `,
 	`\` + marker + `\"`,
+	`w%41rk?q=` + marker + `#frag`,
+	`100%25?` + marker,
 }
 
 // mkStr returns the payload for a field (hostile) or a harmless string of the same role (benign).
@@ -415,6 +418,55 @@ func checkHTMLCase(res *Result, hc *htmlCase, idx int, seed int64) {
 				}
 			} else if strings.Contains(a[1], marker) {
 				res.violation(mk("attribute", fmt.Sprintf("dump content reaches the %s attribute of <%s>", a[0], t.Name), nil, a[1]))
+				return
+			}
+		}
+	}
+	// link targets are URL-escaped: decoding a file, documentation or standard-library source link
+	// gives back exactly a path of the snapshot, and no '?' or '#' of the dump's own splits the target
+	{
+		hsnap, _ := buildHTMLSnapshot(&hc.B, true, seed)
+		files, imps, rels := map[string]bool{}, map[string]bool{}, map[string]bool{}
+		for _, g := range hsnap.Goroutines {
+			for _, cs := range [][]stack.Call{g.Stack.Calls, g.CreatedBy.Calls} {
+				for i := range cs {
+					files[cs[i].LocalSrcPath], files[cs[i].RemoteSrcPath], rels[cs[i].RelSrcPath] = true, true, true
+					imp := cs[i].ImportPath
+					if j := strings.Index(imp, "/vendor/"); j != -1 {
+						imp = imp[j+8:]
+					}
+					imps[imp] = true
+				}
+			}
+		}
+		stdsrc := "https://github.com/golang/go/blob/" + url.QueryEscape(runtime.Version()) + "/src/"
+		for _, h := range frameHrefs {
+			var rest, frag string
+			var among map[string]bool
+			switch {
+			case strings.HasPrefix(h, "file:///"):
+				rest, among = h[len("file:///"):], files
+				if strings.Contains(rest, "#") {
+					frag = "#"
+				}
+			case strings.HasPrefix(h, stdsrc):
+				rest, among = strings.TrimSuffix(h[len(stdsrc):], "#L42"), rels
+			default:
+				for _, p := range []string{"https://golang.org/pkg/", "https://godoc.org/", "https://pkg.go.dev/"} {
+					if strings.HasPrefix(h, p) {
+						rest, among = h[len(p):], imps
+						if j := strings.IndexByte(rest, '#'); j >= 0 {
+							rest, frag = rest[:j], rest[j+1:]
+						}
+					}
+				}
+			}
+			if among == nil {
+				continue
+			}
+			dec, derr := url.PathUnescape(rest)
+			if derr != nil || strings.ContainsAny(rest, "?#") || strings.ContainsAny(frag, "?#") || !among[dec] {
+				res.violation(mk("url-escape", "a link target does not carry the dump's path URL-escaped: decoding it does not give back a path of the snapshot, or a '?' / '#' of the dump's own splits the target", nil, h))
 				return
 			}
 		}
